@@ -8,7 +8,7 @@ import solvecheck
 from common import Drv
 
 THEOREMS = ["Pyvsc.C01.lowerExpr_sound", "Pyvsc.C01.lowerStmt_sound", "Pyvsc.C01.randomize_sound",
-            "Pyvsc.C01.readback_inType", "Pyvsc.C01.enum_readback"]
+            "Pyvsc.C01.readback_inType", "Pyvsc.C01.enum_readback", "Pyvsc.C01.randsets_disjoint", "Pyvsc.C01.randsets_closed"]
 
 OPS = ["eq", "ne", "gt", "ge", "lt", "le", "add", "sub", "div", "mul", "mod", "and", "or", "sll", "srl", "xor"]
 
